@@ -66,6 +66,33 @@ UtilDocs(U) ==
                 [op |-> "all", subs |-> <<m("u1"), m("u2")>>] },
         ut \in { [u1 |-> a, u2 |-> [op |-> "any", subs |-> <<m("u1"), b>>]] : a \in k1 \cup p1, b \in k1 \cup p1 } }
 
+\* documents that refer to a global utility rule with a constraint (the rule `sub` of the utility is one of the
+\* universe's patterns, the constraint restricts one of its variables); the reference stands where a losing
+\* alternative, a conjunct, a negated rule or a relational sub-rule stands
+ConsRefs(U) ==
+    { [op |-> "cons", sub |-> [op |-> "pattern", pidx |-> i], var |-> v, crule |-> c] :
+        i \in 1..(IF Len(U.patterns) < 3 THEN Len(U.patterns) ELSE 3),
+        v \in UNION { { U.patterns[j].PT[g].mv.name : g \in { x \in 1..Len(U.patterns[j].PT) : U.patterns[j].PT[x].ty = "M" /\ U.patterns[j].PT[x].mv.name # "" } }
+                       : j \in 1..(IF Len(U.patterns) < 3 THEN Len(U.patterns) ELSE 3) },
+        c \in RegexAtoms(U) \cup KindAtoms(U, 2) }
+ConsDocs(U) ==
+    LET G == ConsRefs(U)
+        X == PatAtoms(U, 3) \cup KindAtoms(U, 2) IN
+    { [rule |-> r, utils |-> <<>>] :
+        r \in G \cup { [op |-> c, subs |-> <<g, x>>] : c \in {"all", "any"}, g \in G, x \in X }
+               \cup { [op |-> c, subs |-> <<x, g>>] : c \in {"all", "any"}, g \in G, x \in X }
+               \cup { [op |-> "not", sub |-> g] : g \in G }
+               \cup { [op |-> "has", sub |-> g, stop |-> EndStop, field |-> ""] : g \in G } }
+RECURSIVE HasCons(_, _)
+HasCons(U, r) ==
+    CASE r.op = "cons" -> TRUE
+      [] r.op \in {"all", "any"} -> \E k \in 1..Len(r.subs) : HasCons(U, r.subs[k])
+      [] r.op = "not" -> HasCons(U, r.sub)
+      [] r.op = "matches" -> HasCons(U, U.utils[r.id])
+      [] r.op \in Relations -> HasCons(U, r.sub)
+      [] r.op = "nth" -> r.of.op # "none" /\ HasCons(U, r.of)
+      [] OTHER -> FALSE
+
 \* ---- what the properties speak about --------------------------------------
 RECURSIVE PatOccs(_, _)
 \* bag (as a sequence) of pattern indices occurring in a rule, utilities expanded once
@@ -75,6 +102,7 @@ PatOccs(U, r) ==
       [] r.op \in {"all", "any"} -> FlattenSeq([k \in 1..Len(r.subs) |-> PatOccs(U, r.subs[k])])
       [] r.op = "not" -> PatOccs(U, r.sub)
       [] r.op = "matches" -> PatOccs(U, U.utils[r.id])
+      [] r.op = "cons" -> PatOccs(U, r.sub) \o PatOccs(U, r.crule)
       [] r.op \in Relations ->
             PatOccs(U, r.sub) \o (IF r.stop.op \in {"neighbor", "end"} THEN <<>> ELSE PatOccs(U, r.stop))
       [] OTHER -> <<>>
@@ -93,6 +121,7 @@ HasNthOfWithVars(U, r) ==
       [] r.op \in {"all", "any"} -> \E k \in 1..Len(r.subs) : HasNthOfWithVars(U, r.subs[k])
       [] r.op = "not" -> HasNthOfWithVars(U, r.sub)
       [] r.op = "matches" -> HasNthOfWithVars(U, U.utils[r.id])
+      [] r.op = "cons" -> HasNthOfWithVars(U, r.sub)
       [] r.op \in Relations -> HasNthOfWithVars(U, r.sub)
       [] OTHER -> FALSE
 
@@ -104,6 +133,7 @@ FieldsUsed(U, r) ==
       [] r.op = "not" -> FieldsUsed(U, r.sub)
       [] r.op = "nth" -> IF r.of.op = "none" THEN {} ELSE FieldsUsed(U, r.of)
       [] r.op = "matches" -> FieldsUsed(U, U.utils[r.id])
+      [] r.op = "cons" -> FieldsUsed(U, r.sub)
       [] OTHER -> {}
 
 \* the property's restriction: a field name labels at most one child of any parent
@@ -118,6 +148,7 @@ HasBindingNot(U, r) ==
     CASE r.op = "not" -> PatOccs(U, r.sub) # <<>> /\ \E i \in 1..Len(PatOccs(U, r.sub)) : VarsOfPattern(U.patterns[PatOccs(U, r.sub)[i]]) # {}
       [] r.op \in {"all", "any"} -> \E k \in 1..Len(r.subs) : HasBindingNot(U, r.subs[k])
       [] r.op = "matches" -> HasBindingNot(U, U.utils[r.id])
+      [] r.op = "cons" -> HasBindingNot(U, r.sub)
       [] r.op \in Relations -> HasBindingNot(U, r.sub)
       [] r.op = "nth" -> r.of.op # "none" /\ HasBindingNot(U, r.of)
       [] OTHER -> FALSE
